@@ -60,6 +60,7 @@ type interpreter struct {
 	timers             map[*value]bool
 	syncMaps           map[*value]*omap
 	wg                 map[*value]int
+	built              map[*ssa.Package]bool
 }
 
 type spawn struct {
@@ -729,10 +730,21 @@ func callSSA(i *interpreter, caller *frame, callpos token.Pos, fn *ssa.Function,
 			return ext(fr, args)
 		}
 	}
-	if fn.Blocks == nil {
-		if fn.Pkg != nil {
-			fn.Pkg.Build()
+	// Packages are built on demand; Build() blocks until the package is completely built, which also
+	// protects against observing a function half-built by another worker.
+	if pkg := fn.Pkg; pkg != nil && !i.built[pkg] {
+		pkg.Build()
+		i.built[pkg] = true
+	} else if pkg == nil {
+		if par := fn.Parent(); par != nil && par.Pkg != nil && !i.built[par.Pkg] {
+			par.Pkg.Build()
+			i.built[par.Pkg] = true
+		} else if o := fn.Origin(); o != nil && o.Pkg != nil && !i.built[o.Pkg] {
+			o.Pkg.Build()
+			i.built[o.Pkg] = true
 		}
+	}
+	if fn.Blocks == nil {
 		if fn.Blocks == nil {
 			if ext := i.eng.external(fn); ext != nil {
 				return ext(fr, args)
